@@ -714,6 +714,169 @@ def g17_late_binding_closure(fn):
     return findings
 
 
+def g18_mutated_while_iterated(fn):
+    """A list is shortened or extended (remove / pop / append / insert / del x[i] / clear) inside a `for` loop that iterates over
+    the SAME list object -- directly or through a plain alias `y = x` -- : the iteration skips or repeats elements.  (Iterating
+    over a copy -- list(x), x[:], sorted(x) -- is the repair and is not reported.)"""
+    findings = []
+    alias = {}
+    for s in own_nodes(fn):
+        if isinstance(s, ast.Assign) and len(s.targets) == 1 and isinstance(s.targets[0], ast.Name) and isinstance(s.value, ast.Name):
+            alias[s.targets[0].id] = s.value.id
+
+    def root(n):
+        seen = set()
+        while n in alias and n not in seen:
+            seen.add(n)
+            n = alias[n]
+        return n
+    # a name that is rebound in more than one place is not a stable alias
+    binds = {}
+    for s in own_nodes(fn):
+        if isinstance(s, ast.Name) and isinstance(s.ctx, ast.Store):
+            binds[s.id] = binds.get(s.id, 0) + 1
+    for loop in [l for l in own_nodes(fn) if isinstance(l, ast.For) and isinstance(l.iter, ast.Name)]:
+        it = loop.iter.id
+        if binds.get(it, 0) > 1:
+            continue
+        for c in ast.walk(ast.Module(loop.body, [])):
+            tgt = None
+            if isinstance(c, ast.Call) and isinstance(c.func, ast.Attribute) and isinstance(c.func.value, ast.Name) \
+                    and c.func.attr in ('remove', 'pop', 'append', 'insert', 'clear', 'extend'):
+                tgt = c.func.value.id
+            elif isinstance(c, ast.Delete):
+                for t in c.targets:
+                    if isinstance(t, ast.Subscript) and isinstance(t.value, ast.Name):
+                        tgt = t.value.id
+            if tgt is None or binds.get(tgt, 0) > 1:
+                continue
+            if root(tgt) == root(it) and (tgt == it or tgt in alias or it in alias):
+                # the mutation must be able to happen while the loop goes on (not followed by an unconditional exit of THIS loop)
+                findings.append(('G18', c, '`%s` is modified inside the loop `for %s in %s`%s: the loop runs over the list object that is being '
+                                           'changed, so elements are skipped (after a removal) or visited again'
+                                 % (src(c)[:60], src(loop.target), it, '' if tgt == it else ' (`%s` and `%s` are the same list: `%s = %s`)' % (
+                                     tgt, it, tgt if tgt in alias else it, alias.get(tgt, alias.get(it))))))
+                break
+    return findings
+
+
+def g19_stale_after_handler(fn):
+    """try: x = f() ... except E: <handler that neither binds x nor leaves> ; <statements reading x>: after the handler the
+    statements run with the x of an EARLIER iteration (or with none at all)."""
+    findings = []
+    for t in [n for n in own_nodes(fn) if isinstance(n, ast.Try)]:
+        if t.finalbody or not t.handlers:
+            continue
+        bound = set()
+        for s in t.body:
+            for x in ast.walk(s):
+                if isinstance(x, ast.Name) and isinstance(x.ctx, ast.Store):
+                    bound.add(x.id)
+        if not bound:
+            continue
+        par = parent(t)
+        blk = None
+        for fld in ('body', 'orelse', 'finalbody'):
+            b = getattr(par, fld, None)
+            if isinstance(b, list) and t in b:
+                blk = b
+        if blk is None:
+            continue
+        after = blk[blk.index(t) + 1:]
+        if not after:
+            continue
+        for h in t.handlers:
+            if guards.always_exits(h.body):
+                continue
+            hb = {x.id for s in h.body for x in ast.walk(s) if isinstance(x, ast.Name) and isinstance(x.ctx, ast.Store)}
+            # names bound before the try statement in the same function scope with a value that is meaningful as a fallback
+            pre = set()
+            for s in guards.preceding_statements(t):
+                for x in ast.walk(s):
+                    if isinstance(x, ast.Name) and isinstance(x.ctx, ast.Store):
+                        pre.add(x.id)
+            missing = bound - hb - pre
+            if not missing:
+                continue
+            for s in after:
+                reads = [x for x in ast.walk(s) if isinstance(x, ast.Name) and isinstance(x.ctx, ast.Load) and x.id in missing]
+                if reads:
+                    findings.append(('G19', reads[0], '`%s` is bound only inside the try block; the handler `except %s` neither binds it nor leaves, so '
+                                                      'after a caught exception the statements after the try statement read the value of an earlier '
+                                                      'iteration (a step that was never computed is tested and accepted) or raise UnboundLocalError'
+                                     % (reads[0].id, src(h.type) if h.type is not None else '')))
+                    break
+                if any(isinstance(x, ast.Name) and isinstance(x.ctx, ast.Store) and x.id in missing for x in ast.walk(s)):
+                    missing = missing - {x.id for x in ast.walk(s) if isinstance(x, ast.Name) and isinstance(x.ctx, ast.Store)}
+            else:
+                continue
+            break
+    return findings
+
+
+_SYMMETRIC_BINARY = {'np.maximum', 'np.minimum', 'max', 'min', 'np.fmax', 'np.fmin', 'np.hypot', 'np.allclose', 'np.isclose', 'np.array_equal',
+                     'np.logical_and', 'np.logical_or', 'np.logical_xor', 'np.dot', 'np.inner', 'np.outer', 'np.kron', 'np.cross', 'np.lexsort'}
+
+
+def g20_same_argument_twice(fn):
+    """max(a, a), np.maximum(x, x), np.allclose(u, u): a two-argument combination of an expression with itself -- the second
+    operand of a symmetric formula was meant to be the OTHER object."""
+    findings = []
+    for c in own_nodes(fn):
+        if isinstance(c, ast.Call) and len(c.args) >= 2 and (call_name(c) or '') in ('np.maximum', 'np.minimum', 'max', 'min', 'np.fmax', 'np.fmin',
+                                                                                  'np.hypot', 'np.allclose', 'np.isclose', 'np.array_equal'):
+            a, b = c.args[0], c.args[1]
+            if len(c.args) == 2 and ast.dump(a) == ast.dump(b) and not isinstance(a, ast.Constant) \
+                    and not any(isinstance(x, ast.Call) and (call_name(x) or '').split('.')[-1] in ('rand', 'random', 'randn', 'next') for x in ast.walk(a)):
+                findings.append(('G20', c, '`%s` combines `%s` with itself: the result is just that operand, the other object of the symmetric '
+                                           'formula never enters' % (src(c)[:80], src(a)[:40])))
+    return findings
+
+
+def g21_wraparound_at_first_iteration(fn):
+    """for i in range(n): ... x[i-1] = ... : at i = 0 the store goes to x[-1], the LAST element (no IndexError), unless the
+    loop starts at 1 or the store is guarded by i > 0."""
+    findings = []
+    for loop in [l for l in own_nodes(fn) if isinstance(l, ast.For) and isinstance(l.target, ast.Name) and isinstance(l.iter, ast.Call)
+                 and isinstance(l.iter.func, ast.Name) and l.iter.func.id == 'range']:
+        a = loop.iter.args
+        if len(a) == 1 or (len(a) >= 2 and isinstance(a[0], ast.Constant) and a[0].value == 0 and (len(a) == 2 or (
+                isinstance(a[2], ast.Constant) and isinstance(a[2].value, int) and a[2].value > 0))):
+            v = loop.target.id
+        else:
+            continue
+        for st in ast.walk(ast.Module(loop.body, [])):
+            tgts = []
+            if isinstance(st, ast.Assign):
+                tgts = st.targets
+            elif isinstance(st, ast.AugAssign):
+                tgts = [st.target]
+            for t in tgts:
+                if not (isinstance(t, ast.Subscript) and isinstance(t.slice, ast.BinOp) and isinstance(t.slice.op, ast.Sub)
+                        and isinstance(t.slice.left, ast.Name) and t.slice.left.id == v and isinstance(t.slice.right, ast.Constant)
+                        and isinstance(t.slice.right.value, int) and t.slice.right.value >= 1):
+                    continue
+                if nearest_for(st, fn) is not loop:
+                    continue
+                facts = guards.path_conditions(st, stop=loop)
+                guarded = any(v in {x.id for x in ast.walk(nd) if isinstance(x, ast.Name)} for (_t, _p, nd) in facts)
+                if guarded:
+                    continue
+                findings.append(('G21', st, 'in the first iteration (%s = 0) `%s` writes element -%d, i.e. counts from the END of the sequence: for a '
+                                            'sequence of length 1 (or whenever the last slot matters) the store overwrites live data instead of '
+                                            'the previous slot' % (v, src(t)[:50], t.slice.right.value)))
+    return findings
+
+
+def nearest_for(node, fn):
+    p = parent(node)
+    while p is not None and p is not fn:
+        if isinstance(p, (ast.For, ast.While)):
+            return p
+        p = parent(p)
+    return None
+
+
 def g8_meshgrid_indexing(fn):
     """np.meshgrid defaults to indexing='xy', which swaps the first two axes.  pyiga enumerates tensor-product indices in C
     order (first axis slowest) everywhere -- np.unravel_index, itertools.product, ravel() of coefficient arrays -- so a
@@ -885,10 +1048,13 @@ def run(ctx, rule):
             classes.add(f.cls.qual)
         for det in (g1_stale_after_miss, g2_underkeyed, g2b_projection_key, g4_rebound_parameter_forwarded, g6_error_by_difference_of_squares,
                     g8_meshgrid_indexing, g9_optional_number_tested_by_truth, g11_linear_level_factor, g12_triangular_sum_of_asymmetric_summand,
-                    g13_negated_degree_slice, g14_derived_value_cached_before_source_changes, g2c_early_return_memo, g17_late_binding_closure):
+                    g13_negated_degree_slice, g14_derived_value_cached_before_source_changes, g2c_early_return_memo, g17_late_binding_closure,
+                    g18_mutated_while_iterated, g19_stale_after_handler, g20_same_argument_twice, g21_wraparound_at_first_iteration):
             for kind, node, msg in det(f.node):
                 what = {'G4': 'option forwarding', 'G6': 'error estimate', 'G8': 'index order', 'G9': 'optional argument', 'G11': 'dyadic scaling',
-                        'G12': 'symmetric summation', 'G13': 'degree-0 slice', 'G14': 'stale derived value', 'G17': 'late-binding closure'}.get(kind, 'memo discipline')
+                        'G12': 'symmetric summation', 'G13': 'degree-0 slice', 'G14': 'stale derived value', 'G17': 'late-binding closure',
+                        'G18': 'list changed while iterated', 'G19': 'stale value after a caught exception', 'G20': 'operand combined with itself',
+                        'G21': 'negative index at the first iteration'}.get(kind, 'memo discipline')
                 ctx.violated(rule, f.qual, '%s %s: %s' % (kind, what, src(node)[:80]), node, msg)
     for cq in sorted(classes):
         c = ctx.prog.classes.get(cq)
